@@ -9,6 +9,11 @@ from .common import CACHE, build_lean, log
 PEGDIFF_PROPS = set(relations.RELATIONS)
 
 RULES = {
+    'C12': 'frontend: generated grammar ASTs printed under random layouts (whitespace incl. CR/FF, # comments between any two tokens, both quote styles, every escape form, glued punctuation) and a mutated malformed stream; Debug of Grammar::from_str vs the generating AST vs the model front end (eval on the meta-grammar extracted from grammar.ebnf); distinct per (text, layout style) / (mutant outcome, error position)',
+    'C17': 'bootstrap: stage 2 (current generator on grammar.ebnf, rustfmt) vs the shipped generated.rs below the header; shipped front end vs model front end on the C12 corpus (valid and invalid texts: same structure or same error); distinct per text',
+    'C03': 'gendiff: generated grammars (valid family, several derive sets): declared public types extracted from the emitted code vs Compile.decls; rustc acceptance of every parser of the pegdiff suite under forbid(unsafe_code); distinct per (grammar, number of declarations)',
+    'C15': 'gendiff: valid grammars, 12 families built to violate each documented restriction (x derive sets), the inputs of the fixed defects F4/F5, and a raw text stream (mutated valid texts, random tokens, nesting up to depth 200) through the real generator in a separate process; outcome class ok/error/panic/abort vs Compile.errors; distinct per (family, outcome)',
+    'C16': 'routes: library call in fresh processes, CLI, build script; distinct per (grammar, route)',
     'C01': 'pegdiff suite (all families); a case is non-trivial/distinct per (grammar, outcome, consumed bytes)',
     'C02': 'pegdiff suite (all families), accepted inputs; distinct per (grammar, tree shape with literals erased)',
     'C04': 'pegdiff suite; distinct per (grammar containing non-ASCII text, outcome); every offset seen by the tracer, in positions and in errors is checked with is_char_boundary; cfg(peginator_verif) assertion in advance',
@@ -43,6 +48,40 @@ def run_property(pid, seed, tier):
             rel['degenerate'] = 'only %d of %d generated inputs reached the implementation (generator/rustc rejected the rest)' % (seen, expected)
         rel['wall_s'] = time.time() - t0
         # generator-level failures on well-formed grammars are reported by C03/C15; here they only shrink the sample
+        return rel
+    if pid in ('C12', 'C17'):
+        from . import frontend
+        rel = frontend.run_C12(seed, tier) if pid == 'C12' else frontend.run_C17(seed, tier)
+        rel['rule'] = RULES.get(pid, '')
+        return rel
+    if pid == 'C16':
+        from . import routes
+        rel = routes.run_C16(seed, tier)
+        rel['rule'] = RULES.get(pid, '')
+        return rel
+    if pid in ('C03', 'C15'):
+        from . import gendiff
+        rel = gendiff.run(pid, seed, tier)
+        rel['rule'] = RULES.get(pid, '')
+        if pid == 'C15':
+            from . import routes
+            viol, extra = routes.run_cli_failures()
+            rel['prop'] += viol
+            rel['evaluations'] += extra['evaluations']
+            for k, v in extra['distribution'].items():
+                rel['distribution'][k] += v
+        if pid == 'C03':
+            # rustc acceptance of accepted, well-formed grammars: the shared pegdiff suite compiles every generated parser
+            s = suite_mod.get_suite(seed, tier)
+            for cid, msg in s['compile_fail'].items():
+                c = s['case_by_id'][cid]
+                rel['prop'].append(dict(kind='compile', case=cid, grammar=c['text'], sexp=c['sexp'], what='generated code rejected by rustc: ' + msg[-300:]))
+            for cid, v in s['gen'].items():
+                if v[0] != 'OK':
+                    c = s['case_by_id'][cid]
+                    rel['prop'].append(dict(kind='compile', case=cid, grammar=c['text'], sexp=c['sexp'], what='well-formed grammar not compiled by the generator: %s %s' % (v[0], v[1][:200])))
+            rel['evaluations'] += len(s['cases'])
+            rel['distribution']['grammars compiled by rustc (pegdiff suite)'] = len(s['cases']) - len(s['compile_fail'])
         return rel
     from . import other
     return other.run(pid, seed, tier)
